@@ -329,7 +329,7 @@ func runVersionRealCase(cc *caseCtx) {
 			}
 			num := vs.NextFileNumber()
 			_, size, ok := buildTableFile(cc, dir, num.Int64(), es, writeOpts{mode: writeModes[rnd.Intn(len(writeModes))], inject: rnd.Intn(3) == 0,
-				prefix: fmt.Sprintf("file %d", i)})
+				prefix: fmt.Sprintf("file %d", i), history: maybeHistory(rnd, 6)})
 			if !ok {
 				return
 			}
